@@ -206,7 +206,7 @@ def _has_proxy(args, kw):
     for a in args:
         if _isinstance(a, Sym):
             return True
-        if _type(a) in (list, tuple) and _len(a) <= 32:
+        if _type(a) in (list, tuple, collections.deque) and _len(a) <= 32:
             for b in a:
                 if _isinstance(b, Sym):
                     return True
@@ -539,9 +539,11 @@ def sx_call(f, *args, **kw):
     if slf is not None and _isinstance(slf, logging.Logger):
         return None
     if not _has_proxy(args, kw):
-        if slf is not None and _isinstance(slf, Sym) and _is_pass_callable(f) is False:
-            pass
-        return f(*args, **kw)
+        try:
+            return f(*args, **kw)
+        except TypeError as e:
+            _proxy_leak(e)
+            raise
 
     # ---- a proxy is among the arguments
     m = MODELS.get(f) if _isinstance(f, collections.abc.Hashable) else None
@@ -641,6 +643,21 @@ def sx_call(f, *args, **kw):
     if _isinstance(f, functools.partial) and _is_pass_callable(f.func):
         return f(*args, **kw)
     return _unsup(f)
+
+
+_PROXY_NAMES = ('CStr', 'SInt', 'SBool', 'SBlob', 'SDate', 'STime', 'SDecimal', 'SFrac', 'SFixedOffset',
+                'STotalSeconds', 'SDict')
+
+
+def _proxy_leak(e):
+    """a TypeError raised by native code because it met a proxy is not behaviour of the code
+    under test: make the path inconclusive instead of letting spyne handle the exception"""
+    if e.__traceback__ is not None and e.__traceback__.tb_next is not None:
+        return      # raised deeper in python code, not by the native callee itself
+    msg = str(e)
+    for n in _PROXY_NAMES:
+        if n in msg:
+            raise Unsupported('proxy leaked into native callee: %s' % msg)
 
 
 def _unsup(f):
